@@ -4,6 +4,7 @@ src/ibldsp/waveform_extraction.py, equals the expressions the model `Waveforms.w
 (`offset`, chunk-local sample, snippet bounds).
 -/
 import IblVerif.Generated.SrcC13
+import IblVerif.Model.Waveforms
 namespace IblVerif.Tie.C13
 open IblVerif
 
@@ -21,5 +22,12 @@ theorem chunk_local_eq (i cs s1 off len : Nat) (sample : Int) :
   · subst h; simp
   · have : ¬ ((i : Int) = 0) := by omega
     simp [h]
+
+/-- `_make_wfs_table`: the validity mask as written in the source (element-wise) is the model's `Waveforms.allowed`
+(the predicate `per_unit_count` and `chunk_independent` quantify over). -/
+theorem allowed_eq (ns off len : Nat) (s : Int) :
+    Src.C13.wfs_allowed s off ns len = Waveforms.allowed ns off len s := by
+  unfold Src.C13.wfs_allowed Waveforms.allowed
+  by_cases h1 : s > (off : Int) <;> by_cases h2 : s < (ns : Int) - ((len : Int) - (off : Int)) <;> simp [h1, h2] <;> omega
 
 end IblVerif.Tie.C13
